@@ -678,7 +678,7 @@ def rule_Rsearch(text, deltas, where):
         T = lambda j: text[toks[j][1]:toks[j][2]]
         hit = None
         for j in range(3, len(toks) - 2):
-            if T(j) in ('position', 'rposition', 'rfind') and T(j - 1) == '.' and T(j - 2) == ')' and T(j - 3) == '(' and T(j - 4) == 'iter' and T(j - 5) == '.' and T(j + 1) == '(':
+            if T(j) in ('position', 'rposition', 'rfind', 'find') and T(j - 1) == '.' and T(j - 2) == ')' and T(j - 3) == '(' and T(j - 4) == 'iter' and T(j - 5) == '.' and T(j + 1) == '(':
                 c = match_close(text, toks, j + 1)
                 # receiver before `.iter()`
                 r = j - 5
@@ -703,7 +703,7 @@ def rule_Rsearch(text, deltas, where):
                 start = toks[k + 1][1]
                 recv = text[start:toks[r][1]].strip()
                 clo = text[toks[j + 1][2]:toks[c][1]].strip()
-                new = 'verif_%s(&%s, %s)' % (T(j), recv, clo)
+                new = 'verif_%s(%s%s, %s)' % (T(j), '' if T(j) == 'find' else '&', recv, clo)
                 hit = (start, toks[c][2], new)
                 break
         if not hit:
